@@ -714,19 +714,35 @@ func (ck *checker) model() ([][]string, bool) {
 	return scripts, ok
 }
 
-// pick selects the scripts of this tier: all short ones and a seeded sample
-// of the longest.
+// mustScripts are always part of a tier: rows of the rich type next to each
+// other (row-level nulls, dictionaries over several rows) and after a value of
+// another type.
+var mustScripts = [][]string{{"n", "o"}, {"o", "n"}, {"s", "n"}, {"n", "L"}}
+
+// pick selects the scripts of this tier: all short ones, mustScripts, and a
+// seeded sample of the longest.
 func pick(c *core.Ctx, all [][]string) [][]string {
-	full, sample := 1, 10
+	full, sample := 1, 8
 	if !c.Quick() {
-		full, sample = 3, 0
+		full, sample = 2, 100
 	}
 	rng := rand.New(rand.NewSource(c.Seed + 18))
 	var out, long [][]string
+	have := map[string]bool{}
 	for _, s := range all {
 		if len(s) <= full {
 			out = append(out, s)
-		} else {
+			have[scriptKey(s)] = true
+		}
+	}
+	for _, s := range mustScripts {
+		if !have[scriptKey(s)] {
+			out = append(out, s)
+			have[scriptKey(s)] = true
+		}
+	}
+	for _, s := range all {
+		if !have[scriptKey(s)] {
 			long = append(long, s)
 		}
 	}
@@ -740,7 +756,7 @@ func pick(c *core.Ctx, all [][]string) [][]string {
 func run(c *core.Ctx) error {
 	c.Trust("TLC 1.8 (tla2tools 2026.09); the harness's faulty io.WriteCloser and event recorder; the formats' own readers for the read-back; Go runtime call stacks (used only to name signatures)")
 	c.Assume("the sink honours the io.Writer contract (n < len(p) implies a non-nil error); sink Close never fails and reports nothing; callers stop writing values after the first error and always call Close (zio.CopyWithContext, cli/outputflags)")
-	c.Assume("value scripts up to the tier's length over 5 value classes per format; arrows and parquet writers are not covered")
+	c.Assume("value scripts up to the tier's length over 7 value classes per format (two of them rich: nulls mixed with distinct values, unions, maps, nested containers); arrows and parquet writers are not covered")
 	c.Rule("case = (writer target, value script, failing sink call k, mode); scripts are the words exported by TLC from SinkWriter.tla instantiated per format; every k up to the dry run's number of sink write calls x {oneshot, sticky, short}, plus the fault-free run (read back with the format's reader); non-trivial = the injected fault was actually hit (or, for the fault-free run, at least one value was written); every case's event trace is validated against SinkWriterTrace.tla")
 	ck := &checker{c: c, byName: map[string]*target{}, refs: map[string][][]byte{}}
 	tgts := targets()
@@ -816,7 +832,7 @@ func (ck *checker) replay() error {
 }
 
 func dump(tgts []*target) {
-	scripts := [][]string{{}, {"s"}, {"s", "t"}, {"u", "s"}, {"s", "L", "s"}, {"s", "R", "t"}}
+	scripts := [][]string{{"n"}, {"n", "o"}}
 	for _, t := range tgts {
 		for _, sc := range scripts {
 			dry, err := execute(t, sc, 0, ModeNone, nil)
